@@ -76,3 +76,24 @@ End Guarded.
 
 (* a file that includes itself / a substitution whose value is itself *)
 Definition succs_self (ks : list str) : list (list str) := [ks].
+
+(* ---------------------------------------------------------------- primitives used by the regenerated guard code
+   (coq/Gen/GuardSrc.v, translated from the source by gen/c01_guards.py); sets are lists without order *)
+Definition py_in (k : str) (l : list str) : bool := mem_str k l.
+Definition py_append (l : list str) (k : str) : list str := l ++ [k].
+Definition py_pop (l : list str) : list str := removelast l.
+Definition py_intersection (a s : list str) : list str := filter (fun x => mem_str x s) a.
+Definition py_truthy (l : list str) : bool := match l with [] => false | _ => true end.
+Definition py_update (s a : list str) : list str := a ++ s.
+Definition py_difference_update (s a : list str) : list str := filter (fun x => negb (mem_str x a)) s.
+
+(* the nested render of a call: its children, one after the other, threading the guard state *)
+Section Thread.
+  Variable K : Type.
+  Variable step : list str -> K -> res (list str).
+  Fixpoint thread (st : list str) (l : list K) : res (list str) :=
+    match l with
+    | [] => Ok st
+    | c :: t => do st' <- step st c ; thread st' t
+    end.
+End Thread.
